@@ -23,6 +23,7 @@ type execProfile struct {
 	maxReqs    int
 	single     bool // stacks are exactly [mustHave]
 	durChoices []int64
+	hedgePct   int // percentage of stacks that end in a hedge policy (directly around the function)
 }
 
 var (
@@ -227,6 +228,16 @@ func genExecHistory(r *Rng, pf execProfile) (InstD, []ReqD) {
 				np := genPolicy(r, pf.mustHave, len(stack)+20, g)
 				stack = append(stack[:pos], append([]PolD{np}, stack[pos:]...)...)
 			}
+			if !pf.single && r.Chance(pf.hedgePct) {
+				hp := PolD{K: "Hedge", Hedges: 1 + r.Intn(3), HDelay: int64(1+r.Intn(5))*1024 + 128 + int64(len(stack))}
+				if r.Chance(60) {
+					hp.Cancel = []CallD{Pick(r, []CallD{{K: "Result", R: 7}, {K: "Result", R: 0}, {K: "Errors", Errs: []ErrD{sent(0)}}, {K: "Errors", Errs: []ErrD{sent(1)}}})}
+					if r.Chance(30) {
+						hp.Cancel = append(hp.Cancel, genHandle(r)...)
+					}
+				}
+				stack = append(stack, hp)
+			}
 		}
 		rq := ReqD{Stack: stack, Gap: Pick(r, []int64{0, 1024, 4096, 40960 + 128, 102400}), CtxKey: Pick(r, []int64{-1, -1, -1, -2, 0, 1, 2})}
 		for i := range rq.NoLsn {
@@ -238,8 +249,14 @@ func genExecHistory(r *Rng, pf execProfile) (InstD, []ReqD) {
 			rq.Entry = Pick(r, plainEntries)
 		}
 		n := 1 + r.Intn(6)
+		if hedged(stack) {
+			n += 2 + r.Intn(4)
+		}
 		for i := 0; i < n; i++ {
 			st := FnStepD{Out: genOutcome(r), Dur: genDur(r)}
+			if hedged(stack) {
+				st.Dur = int64(r.Intn(10))*1024 + int64(i) // attempts overlap: pairwise distinct residues
+			}
 			if i == n-1 && r.Chance(70) {
 				st.Out = OutD{R: Pick(r, []int64{0, 1, 7})} // scripts mostly end in a plain result
 			}
@@ -249,6 +266,9 @@ func genExecHistory(r *Rng, pf execProfile) (InstD, []ReqD) {
 					co = st.Out
 				}
 				st.Coop = &co
+			}
+			if hedged(stack) && st.Coop != nil {
+				st.Lag = int64(1 + i%5) // overlapping attempts: distinct return instants after a cancellation
 			}
 			rq.Script = append(rq.Script, st)
 		}
@@ -270,6 +290,8 @@ func genExecHistory(r *Rng, pf execProfile) (InstD, []ReqD) {
 	}
 	return g.inst, reqs
 }
+
+func hedged(stack []PolD) bool { return len(stack) > 0 && stack[len(stack)-1].K == "Hedge" }
 
 // unbounded retry loops: a retry policy with unlimited retries must meet an outcome that stops it.
 func boundedScript(reqs []ReqD) bool {
@@ -336,6 +358,9 @@ func driveExec(t *testing.T, prop string, pf execProfile, nQuick, nThorough int,
 			if len(rq.Stack) >= 2 && (obs[i].Invoked != 1 || obs[i].Counts["PolFailure"] > 0 || obs[i].Counts["TimeoutExceeded"] > 0 || obs[i].Counts["CacheHit"] > 0) {
 				nontrivial = true
 			}
+			if pf.hedgePct == 100 && obs[i].Counts["Hedge"] > 0 {
+				nontrivial = true
+			}
 			if pf.single && (obs[i].Invoked != 1 || obs[i].Counts["PolFailure"] > 0 || obs[i].Counts["CacheHit"] > 0 || obs[i].Counts["TimeoutExceeded"] > 0) {
 				nontrivial = true
 			}
@@ -360,7 +385,7 @@ func driveExec(t *testing.T, prop string, pf execProfile, nQuick, nThorough int,
 }
 
 func TestDrive_C01(t *testing.T) {
-	driveExec(t, "C01", execProfile{name: "C01", kinds: allKinds, maxDepth: 5, extPct: 8, coopPct: 40, maxReqs: 5}, 400, 12000,
+	driveExec(t, "C01", execProfile{name: "C01", kinds: allKinds, maxDepth: 5, extPct: 8, coopPct: 40, maxReqs: 5, hedgePct: 20}, 400, 12000,
 		"histories of 1-5 executions on shared policy instances; stacks of depth 0-5 over retry, breaker, rate limiter, bulkhead, timeout, fallback, cache (with repetition and shared instances); scripts of 1-6 function outcomes with durations; all eight entry points; occasional external cancellation. Observed per execution: returned result and error, end instant, the ordered log of every listener and of the function's entry and exit (with counters), breaker state/metrics and cache contents afterwards. Non-trivial = depth >= 2 and some layer changed the outcome or the number of invocations; distinct by (instances, requests).", nil)
 }
 
@@ -372,7 +397,7 @@ func TestDrive_C02(t *testing.T) {
 		"a retry policy as the whole stack: maxRetries -1,0..3 through WithMaxRetries or WithMaxAttempts, random handle and abort conditions, ReturnLastFailure on/off, max duration, fixed delays; scripts of 1-6 outcomes; all eight entry points; then retry policies inside random stacks. Non-trivial = the function ran more than once or a failure was handled. "+execRule,
 		func(w *CaseWriter, rng *Rng, add func(InstD, []ReqD, string)) {
 			// retry inside / around other policies
-			pf2 := execProfile{name: "C02b", kinds: allKinds, maxDepth: 4, mustHave: "Retry", extPct: 5, coopPct: 30, maxReqs: 3}
+			pf2 := execProfile{name: "C02b", kinds: allKinds, maxDepth: 4, mustHave: "Retry", extPct: 5, coopPct: 30, maxReqs: 3, hedgePct: 20}
 			n := 150
 			if envTier() == "thorough" {
 				n = 5000
@@ -387,24 +412,24 @@ func TestDrive_C02(t *testing.T) {
 }
 
 func TestDrive_C10(t *testing.T) {
-	pf := execProfile{name: "C10", kinds: []string{"Retry", "Breaker", "Limiter", "Bulkhead", "Timeout", "Fallback", "Cache"}, maxDepth: 4, mustHave: "Fallback", extPct: 10, coopPct: 40, maxReqs: 3}
+	pf := execProfile{name: "C10", kinds: []string{"Retry", "Breaker", "Limiter", "Bulkhead", "Timeout", "Fallback", "Cache"}, hedgePct: 20, maxDepth: 4, mustHave: "Fallback", extPct: 10, coopPct: 40, maxReqs: 3}
 	driveExec(t, "C10", pf, 450, 15000,
 		"stacks of depth 1-5 containing at least one fallback (WithResult/WithError/func echoing LastResult/func wrapping LastError) with random handle conditions, around and inside retry, breaker, rate limiter, bulkhead, timeout and cache policies so that the inner outcome ranges over plain results, handled and unhandled errors, ExceededError, ErrOpen, ErrFull, rate-limit and timeout errors. Non-trivial = some layer changed the outcome. "+execRule, nil)
 }
 
 func TestDrive_C11(t *testing.T) {
-	pf := execProfile{name: "C11", kinds: []string{"Retry", "Retry", "Breaker", "Breaker", "Fallback", "Timeout", "Bulkhead", "Cache"}, maxDepth: 3, mustHave: "Cache", extPct: 0, coopPct: 20, maxReqs: 6}
+	pf := execProfile{name: "C11", kinds: []string{"Retry", "Retry", "Breaker", "Breaker", "Fallback", "Timeout", "Bulkhead", "Cache"}, hedgePct: 20, maxDepth: 3, mustHave: "Cache", extPct: 0, coopPct: 20, maxReqs: 6}
 	driveExec(t, "C11", pf, 450, 15000,
 		"histories of 1-6 executions on shared caches and policy instances; stacks containing a cache policy (configured key 0-3, CacheIf conditions, pre-populated stores) with stateful breakers/bulkheads/retries inside; context keys none / non-string / string (empty, equal, different). Non-trivial = a hit, a store or a handled failure occurred. "+execRule, nil)
 }
 
 func TestDrive_C16(t *testing.T) {
-	pf := execProfile{name: "C16", kinds: allKinds, maxDepth: 5, extPct: 10, coopPct: 40, maxReqs: 4}
+	pf := execProfile{name: "C16", kinds: allKinds, maxDepth: 5, extPct: 10, coopPct: 40, maxReqs: 4, hedgePct: 20}
 	driveExec(t, "C16", pf, 400, 12000, "random stacks and histories as for C01, with every policy listener registered and executor listeners registered in random subsets. "+execRule, nil)
 }
 
 func TestDrive_C17(t *testing.T) {
-	pf := execProfile{name: "C17", kinds: allKinds, maxDepth: 5, extPct: 10, coopPct: 40, maxReqs: 4, withExec: true}
+	pf := execProfile{name: "C17", kinds: allKinds, maxDepth: 5, extPct: 10, coopPct: 40, maxReqs: 4, withExec: true, hedgePct: 35}
 	driveExec(t, "C17", pf, 400, 12000, "random stacks and histories as for C01 through the entry points that hand an Execution to the function, so that counters are read inside the function as well as in every listener. "+execRule, nil)
 }
 
@@ -429,7 +454,7 @@ func aroundLimits(r *Rng, reqs []ReqD) {
 
 func TestDrive_C07(t *testing.T) {
 	driveC07Race(t)
-	pf := execProfile{name: "C07", kinds: []string{"Timeout", "Timeout", "Retry", "Fallback", "Bulkhead", "Limiter", "Breaker"}, maxDepth: 4, mustHave: "Timeout", extPct: 0, coopPct: 50, maxReqs: 2, withExec: true}
+	pf := execProfile{name: "C07", kinds: []string{"Timeout", "Timeout", "Retry", "Fallback", "Bulkhead", "Limiter", "Breaker"}, hedgePct: 20, maxDepth: 4, mustHave: "Timeout", extPct: 0, coopPct: 50, maxReqs: 2, withExec: true}
 	driveExec(t, "C07", pf, 0, 0,
 		"stacks containing at least one Timeout (limits 1.5-8.5 us with distinct residues) alone and relative to retry, fallback, bulkhead, rate limiter and breaker, including nested timeouts; function durations placed at 0, limit/2, limit-1ns, limit+1ns, 2*limit, 3*limit+7 for cooperative (return on cancellation) and non-cooperative functions. Non-trivial = a timeout fired or a failure was handled. "+execRule,
 		func(w *CaseWriter, rng *Rng, add func(InstD, []ReqD, string)) {
@@ -449,7 +474,7 @@ func TestDrive_C07(t *testing.T) {
 }
 
 func TestDrive_C08(t *testing.T) {
-	pf := execProfile{name: "C08", kinds: []string{"Retry", "Retry", "Fallback", "Breaker", "Bulkhead", "Limiter", "Timeout"}, maxDepth: 4, mustHave: "Retry", extPct: 0, coopPct: 60, maxReqs: 1}
+	pf := execProfile{name: "C08", kinds: []string{"Retry", "Retry", "Fallback", "Breaker", "Bulkhead", "Limiter", "Timeout"}, hedgePct: 20, maxDepth: 4, mustHave: "Retry", extPct: 0, coopPct: 60, maxReqs: 1}
 	driveExec(t, "C08", pf, 0, 0,
 		"single executions through stacks containing a retry policy (optionally with fallback, breaker, bulkhead, rate limiter, timeout); each scenario is first run without cancellation, then re-run with the caller's context cancelled (or its deadline reached) at instants taken from the uncancelled run's own event times, 1ns before and after them and midway between them, so that the cancellation lands inside the function, between attempts, during each kind of wait and before the first attempt. Non-trivial = the cancellation changed the outcome. "+execRule,
 		func(w *CaseWriter, rng *Rng, add func(InstD, []ReqD, string)) {
